@@ -152,8 +152,13 @@ def main():
         # ---- failures: known finding, or replay natively ---------------------------------------------------
         findings = load_findings()
         violations, known, unreproduced = [], [], []
-        for n, r in sorted(results.items()):
+        # cheapest counterexamples first; once one has been reproduced natively the others are not replayed
+        for n, r in sorted(results.items(), key=lambda kv: kv[1].get("wall_s", 0)):
             if r["status"] != "fail":
+                continue
+            if violations and not os.environ.get("VERIF_REPLAY_ALL"):
+                r["status"] = "fail_not_replayed"
+                r["reason"] += " (not replayed: another counterexample of this run was already reproduced)"
                 continue
             hits = match_finding(findings, pid, r)
             if hits:
@@ -162,7 +167,13 @@ def main():
                 r["status"] = "known_finding"
                 continue
             s = spec_by[n]
+            if n in all_metas:
+                run = all_run[n]
+                r["rerun"] = (lambda n=n, run=run: kani.run_harness(all_metas[n], run.get("unwind"), run.get("cap_s", 240) * 2,
+                                                                     run.get("mem_gb", 10), workdir, run.get("extra_cbmc", ()),
+                                                                     run.get("unwindset"), trace=True))
             rp = replay_mod.replay_failure(pid, s, r, scratches)
+            r.pop("rerun", None)
             r["replay"] = rp
             if rp["reproduced"]:
                 violations.append((n, rp["path"]))
@@ -209,7 +220,7 @@ def main():
 
 def write_evidence(pid, tier, seed, specs, results, build_s, wall, nviol, known):
     spec_by = {s["name"]: s for s in specs}
-    decided = [r for r in results.values() if r["status"] in ("pass", "fail", "known_finding", "unreproduced")]
+    decided = [r for r in results.values() if r["status"] in ("pass", "fail", "fail_not_replayed", "known_finding", "unreproduced")]
     nontrivial = [r for r in results.values() if r["status"] == "pass" and not r.get("twin_ok")
                   and all(v == "SATISFIED" for c, v in r["covers"].items()
                           if not any(al in c for al in spec_by[r["harness"]].get("may_be_uncovered", [])))
@@ -219,7 +230,9 @@ def write_evidence(pid, tier, seed, specs, results, build_s, wall, nviol, known)
         s = spec_by[n]
         samples.append(dict(harness=n, obligation=s.get("obligation", ""), engine=s.get("engine", "K"), config=r.get("config"),
                             bounds=s.get("bounds", ""), unwind=r.get("unwind"), verdict=r["status"], cbmc_checks=r["checks"],
-                            covers=r["covers"], solver_s=r["solver_s"], wall_s=r["wall_s"], note=r["reason"][:200]))
+                            covers=r["covers"], solver_s=r["solver_s"], wall_s=r["wall_s"], symex_steps=r.get("symex_steps"),
+                            vccs_after_simplification=r.get("vccs"), sat_variables=r.get("sat_vars"), sat_clauses=r.get("sat_clauses"),
+                            unwindset=r.get("unwindset"), note=r["reason"][:200]))
     funcs = sorted({f for s in specs for f in s.get("functions", [])})
     stubs = sorted({f for s in specs for f in s.get("stubs", [])})
     outside = sorted({f for s in specs for f in s.get("outside", [])})
@@ -228,9 +241,10 @@ def write_evidence(pid, tier, seed, specs, results, build_s, wall, nviol, known)
         coverage=dict(
             evaluations=len(decided),
             distinct_nontrivial=len(nontrivial),
-            rule="one evaluation = one solver query set discharged for one harness instance (CBMC/CaDiCaL over the compiled real "
-                 "functions, or z3+cvc5 over their MIR); non-trivial = verdict 'pass' with every kani::cover! reachability witness "
-                 "SATISFIED (Engine Z: sat-check of the un-negated path condition); harness instances are distinct by (kernel, size tuple)",
+            rule="one evaluation = one harness instance for which CBMC/CaDiCaL returned a verdict over the compiled real functions "
+                 "(all its VCCs discharged or a counterexample found); non-trivial = verdict 'pass' with every kani::cover! "
+                 "reachability witness SATISFIED (witnesses that a given size tuple cannot reach are listed per harness in the table "
+                 "and excluded); harness instances are distinct by (kernel, size tuple)",
             samples=samples,
             exhaustive=False,
             functions_encoded=funcs,
